@@ -286,6 +286,44 @@ fn run_bodies(inst: &Instance, bodies: &[Vec<usize>], variants: &[usize], out: &
     c.1.extend(kinds);
 }
 
+/// Bodies that subscribe the request's session by other means than a top-level `watch` (a watch
+/// inside the `rp <id>` envelope, `arbiter`), alone and mixed with plain watches and writes; only
+/// the clean-up clause is judged: when the request has ended no watcher entry and no counted
+/// connection of it is left.
+const INDIRECT_SUBSCRIPTIONS: &[&str] = &[
+    "use-db t tok;rp 7 watch k",
+    "use-db t tok;rp 7 watch k;set k 1",
+    "use-db t tok;arbiter",
+    "auth u p;use-db t tok;arbiter;set k 2",
+    "use-db t tok;rp 7 watch k;watch j",
+    "use-db t tok;watch k;rp 8 unwatch k",
+    "use-db t tok;rp 9 use-db t tok;rp 7 watch k",
+    "use-db t tok;rp 7 rp 8 watch k",
+    "use-db t tok; watch k ;set k 3",
+    "use-db t bob bt;rp 7 watch k",
+];
+
+fn run_cleanup_bodies(inst: &Instance, out: &std::sync::Mutex<Vec<Violation>>, counters: &std::sync::Mutex<(u64, std::collections::BTreeSet<String>)>) {
+    let mut n = 0;
+    for body in INDIRECT_SUBSCRIPTIONS {
+        reset(&inst.node);
+        n += 1;
+        if let Err(e) = inst.http.post(body) {
+            out.lock().unwrap().push(Violation { clause: "http-request-failed".into(), shape: body.to_string(), detail: e, replay: json!({"engine":"c20","body":body}) });
+            continue;
+        }
+        let (watchers, conn, key) = with_db(&inst.node.dbs, "t", |db| (watcher_counts(db), db.connections_count(), dump_db(db).get("$connections").map(|k| k.value.clone()))).unwrap();
+        if watchers.values().any(|n| *n > 0) {
+            out.lock().unwrap().push(Violation { clause: "subscription-leaked".into(), shape: body.replace(';', " ; "), detail: format!("after body {:?}: watchers {:?}", body, watchers), replay: json!({"engine":"c20","body":body}) });
+        }
+        let key_n = key.as_ref().and_then(|k| k.parse::<i64>().ok()).unwrap_or(0);
+        if conn != 0 || key_n != 0 {
+            out.lock().unwrap().push(Violation { clause: "connection-count-leaked".into(), shape: body.replace(';', " ; "), detail: format!("after body {:?}: internal counter {} $connections {:?}", body, conn, key), replay: json!({"engine":"c20","body":body}) });
+        }
+    }
+    counters.lock().unwrap().0 += n;
+}
+
 /// One WebSocket frame holding several commands.  Differential oracle: the frames the server sends
 /// back, the database afterwards and the session's clean-up must be exactly what the same commands
 /// give when each travels in a frame of its own (and the data must be what the model says).
@@ -425,6 +463,9 @@ pub fn run(run: &mut Run) {
                 let short: Vec<Vec<usize>> = part.iter().filter(|b| b.len() <= 2).cloned().collect();
                 run_bodies(inst, part, &[0], out, counters);
                 run_bodies(inst, &short, &[1, 2, 3], out, counters);
+                if i == 0 {
+                    run_cleanup_bodies(inst, out, counters);
+                }
                 let ws_depth = depth - 1;
                 let ws_part: Vec<Vec<usize>> = part.iter().filter(|b| b.len() <= ws_depth).cloned().collect();
                 run_ws_frames(inst, &ws_part, out, counters);
@@ -440,6 +481,7 @@ pub fn run(run: &mut Run) {
     run.cov("bodies", json!(bodies.len()));
     run.cov("max_commands_per_body", json!(depth));
     run.cov("letters", json!(LETTERS));
+    run.cov("bodies_with_indirect_subscriptions", json!(INDIRECT_SUBSCRIPTIONS));
     run.cov("distinct_entry_kinds", json!(kinds));
     run.cov_add("states", bodies.len() as u64);
     run.cov_add("transitions", n);
